@@ -39,11 +39,24 @@ func (a *fakeCognitoAdmin) GlobalSignOut(*sessions.SessionState) error     { ret
 // one user-info endpoint for all Cognito cases: the bearer token names the user
 var (
 	profileOnce sync.Once
-	profileURL  *url.URL
+	profileURLs []*url.URL
 )
 
-func cognitoProfileURL() *url.URL {
+// several listeners: the providers' shared http.Client keeps two idle connections per host only, and
+// one listener would see tens of thousands of short-lived connections in the thorough tier
+const nProfileServers = 32
+
+func cognitoProfileURL(i int) *url.URL {
 	profileOnce.Do(func() {
+		for k := 0; k < nProfileServers; k++ {
+			profileURLs = append(profileURLs, newProfileServer())
+		}
+	})
+	return profileURLs[i%nProfileServers]
+}
+
+func newProfileServer() *url.URL {
+	{
 		s := httptest.NewServer(http.HandlerFunc(func(rw http.ResponseWriter, r *http.Request) {
 			tok := strings.TrimPrefix(r.Header.Get("Authorization"), "Bearer ")
 			b, err := base64.RawURLEncoding.DecodeString(tok)
@@ -55,12 +68,16 @@ func cognitoProfileURL() *url.URL {
 			rw.WriteHeader(200)
 			rw.Write(out)
 		}))
-		profileURL, _ = url.Parse(s.URL + "/oauth2/userInfo")
-	})
-	return profileURL
+		u, _ := url.Parse(s.URL + "/oauth2/userInfo")
+		return u
+	}
 }
 
-var buildMu sync.Mutex
+var (
+	cognitoOnce sync.Once
+	cognitoTpl  *providers.AmazonCognitoProvider
+	cognitoErr  error
+)
 
 func tokenFor(user string) string { return base64.RawURLEncoding.EncodeToString([]byte(user)) }
 
@@ -90,9 +107,7 @@ func runProvider(rep *vh.Report, env vh.Env, kind string, i int) {
 	var stop func()
 	switch kind {
 	case "google":
-		buildMu.Lock()
 		gp, err := providers.NewGoogleProvider(&providers.ProviderData{}, "", "", "", "")
-		buildMu.Unlock()
 		if err != nil {
 			rep.Inconclusive("NewGoogleProvider failed offline: " + err.Error())
 			return
@@ -103,18 +118,23 @@ func runProvider(rep *vh.Report, env vh.Env, kind string, i int) {
 		gp.GroupsCache = run.fc
 		p, stop = gp, gp.Stop
 	default:
-		// providers are built one after the other at start-up in production (the AWS SDK's session
-		// set-up is not safe for concurrent first use)
-		buildMu.Lock()
-		cg, err := providers.NewAmazonCognitoProvider(&providers.ProviderData{}, "cognito.sso.test", "us-east-1", "pool", "id", "secret")
-		buildMu.Unlock()
-		if err != nil {
-			rep.Inconclusive("NewAmazonCognitoProvider failed offline: " + err.Error())
+		// The constructor runs once (it sets up an AWS SDK session: ~30 ms under the race detector and
+		// not safe for concurrent first use; production builds its providers one after the other at
+		// start-up). Every case works on its own copy of the constructed provider and ProviderData.
+		cognitoOnce.Do(func() {
+			cognitoTpl, cognitoErr = providers.NewAmazonCognitoProvider(&providers.ProviderData{}, "cognito.sso.test", "us-east-1", "pool", "id", "secret")
+		})
+		if cognitoErr != nil {
+			rep.Inconclusive("NewAmazonCognitoProvider failed offline: " + cognitoErr.Error())
 			return
 		}
+		cgv := *cognitoTpl
+		pd := *cognitoTpl.ProviderData
+		cgv.ProviderData = &pd
+		cg := &cgv
 		cg.AdminService = &fakeCognitoAdmin{d}
 		cg.StatsdClient = sut.Statsd()
-		cg.ProfileURL = cognitoProfileURL()
+		cg.ProfileURL = cognitoProfileURL(i)
 		run = newFcRun(d, cg.PopulateMembers, ttl)
 		cg.GroupsCache = run.fc
 		// AmazonCognitoProvider has no Stop of its own (ProviderData.Stop is a no-op): stop the cache
@@ -219,7 +239,7 @@ func runProvider(rep *vh.Report, env vh.Env, kind string, i int) {
 	}
 	d.releaseAll()
 	stop()
-	if !waitUntil(func() bool { return d.nInflight() == 0 }, watchdog) {
+	if !waitUntil(func() bool { return d.nInflight() == 0 }, watchdog) || !run.drain(gpool) {
 		rep.Inconclusive(kind + ": fills still in flight after Stop within the watchdog")
 		return
 	}
